@@ -1,12 +1,12 @@
 #!/bin/bash
-# Run checks against a seeded change without touching /repo: scratch worktree of /repo's HEAD + patch, VERIF_REPO.
-# usage: try_seeded.sh <patch.diff> <ID> [<ID>...]     (env TIER=quick|thorough)
+# Run checks against a seeded change without touching /repo: scratch worktree of /repo (HEAD, or BASE=<commit>) + patch, VERIF_REPO.
+# usage: [BASE=<commit>] [TIER=quick|thorough] try_seeded.sh <patch.diff> <ID> [<ID>...]
 P=$(realpath "$1"); shift
 WT=/tmp/seedwt_$$
-git -C /repo worktree add --detach "$WT" HEAD >/dev/null 2>&1 || exit 3
+git -C /repo worktree add --detach "$WT" "${BASE:-HEAD}" >/dev/null 2>&1 || exit 3
 if ! git -C "$WT" apply "$P"; then echo "PATCH DOES NOT APPLY"; git -C /repo worktree remove --force "$WT"; exit 3; fi
 for id in "$@"; do
-  echo "=== $id on $(basename $(dirname $P))/$(basename $P)"
+  echo "=== $id on $(basename $(dirname $P))/$(basename $P) (base ${BASE:-HEAD})"
   VERIF_REPO="$WT" /usr/bin/python3 /verif/run_check.py "$id" --tier "${TIER:-quick}" 2>/dev/null | grep -E "^(VIOLATION|KNOWN-FINDING|HARNESS-ERROR|BUILD-ERROR|C[0-9]+ tier)" | cut -c1-260
   echo "rc=${PIPESTATUS[0]}"
 done
